@@ -155,7 +155,11 @@ var widths = []int{1, 2, 3, 5, 7, 8, 9, 13, 16, 17, 24, 31, 32, 33, 48, 63, 64, 
 // randomProgram: n parties, one argument each (own width), body of
 // declarations / assignments / if-else / bounded loops, 1..3 results.
 func randomProgram(r *hxlib.Rng) progCase {
-	n := 2 + r.Intn(4)
+	return randomProgramN(r, 2+r.Intn(4))
+}
+
+// randomProgramN: the same generator for a given number of parties.
+func randomProgramN(r *hxlib.Rng, n int) progCase {
 	g := &gen{r: r, n: n, feats: map[string]bool{}}
 	g.bits = widths[r.Intn(len(widths))]
 	if r.Intn(3) == 0 && g.bits <= 33 {
